@@ -68,6 +68,18 @@ def build_nodes(case):
         if case.get('starved') and srcs and x in srcs:
             nd['autostart'] = False     # the consumers of the exiting filter never start
         nodes.append(nd)
+    if case.get('metrics'):
+        # the exiting filter publishes its metrics on a dedicated address (outputs_metrics) and a listener L subscribes to it: one more neighbour,
+        # one more endpoint to announce the exit on and to tear down - for a sink it is the only sender the filter has
+        from simnet import harness
+        maddr = harness.addr_of(9, 0, False)
+        for nd in nodes:
+            if nd['id'] == x:
+                nd.setdefault('cfg', {})['outputs_metrics'] = maddr
+        pol = case['policies'].get('L') or case['policies']['*']
+        nodes.append({'id': 'L', 'sources': [maddr + ';*'], 'nout': 0, 'beh': {'kind': 'sink', 'work': [0]}, 'prop_exit': pol[0], 'obey_exit': pol[1], 'start': 0,
+                      **({'in_handler': True} if case.get('caller') == 'in_handler' else {})})
+        topo = topo + [('L', [x])]
     return nodes, topo, x
 
 
@@ -158,6 +170,8 @@ def run_case(case):
     classes = [f'pos {case["pos"]}', f'inject {where}' + (f'[{k}]' if where == 'process' else '') + f' {what}' if case.get('exit_after') is None else f'exit_after {type(case["exit_after"]).__name__}']
     if case.get('caller') == 'in_handler':
         classes.append('run() called from inside an exception handler')
+    if case.get('metrics'):
+        classes.append('dedicated metrics output with a listener')
     if case.get('exit_after') is None and state['fired'] is None:
         return ok(False, classes + ['injection point not reached'], None)
     pol = lambda nid: tuple(FLAGS[v] for v in (case['policies'].get(nid) or case['policies']['*']))
@@ -301,6 +315,12 @@ def matrix_cases(tier):
             if what in ('exit', 'stop_evt'):
                 for pol in ('all', 'clean'):
                     yield {'pos': pos, 'where': where, 'k': k, 'what': what, 'policies': {'*': [pol, pol]}, 'net': FIXED_NET, 'caller': 'in_handler'}
+    # the exiting filter has a dedicated metrics output with a listener on it
+    for pos in POSITIONS:
+        for (where, k, what) in INJECTIONS:
+            if where in ('process', 'setup', 'shutdown', 'outside'):
+                for pol in ('all', 'clean', 'error'):
+                    yield {'pos': pos, 'where': where, 'k': k, 'what': what, 'policies': {'*': [pol, pol]}, 'net': FIXED_NET, 'metrics': True}
     for pos in POSITIONS:
         for T, forms in ((1.5, [1.5, '0:01.5', '@']), (2, [2, '0:02', '@'])):
             for form in forms:
@@ -334,7 +354,7 @@ def case_strategy(draw, tier):
     return {'pos': pos, 'where': where, 'k': k, 'what': what, 'policies': pols, 'work': draw(st.sampled_from([5, 20, 60])),
             'net': draw(scen.net_strategy(classes=('fast', 'lan', 'sub_poll'), max_drops=0)),
             'starts': draw(st.lists(st.sampled_from([0, 0, 30, 200]), min_size=8, max_size=8)), 't_stop_ms': draw(st.integers(300, 2500)),
-            'required': draw(st.booleans()), 'caller': draw(st.sampled_from(['plain', 'plain', 'in_handler']))}
+            'required': draw(st.booleans()), 'caller': draw(st.sampled_from(['plain', 'plain', 'in_handler'])), 'metrics': draw(st.sampled_from([False, False, True]))}
 
 
 PARTS = [
